@@ -53,6 +53,8 @@ _MODFILES = {
     'port::sequence_id::verif_seq': ('statime/src/port/sequence_id.rs', 'seq.rs'),
     'port::actions::verif_act': ('statime/src/port/actions.rs', 'actions.rs'),
     'bmc::foreign_master::verif_fm': ('statime/src/bmc/foreign_master.rs', 'foreign_master.rs'),
+    'datastructures::common::tlv::verif_tlv': ('statime/src/datastructures/common/tlv.rs', 'tlv_mod.rs'),
+    'time::duration::verif_bits::serde_contract': ('statime/src/time/duration.rs', 'time_dur.rs'),
     'bmc::dataset_comparison::verif_cmp': ('statime/src/bmc/dataset_comparison.rs', 'dataset_comparison.rs'),
     'bmc::bmca::verif_bmca': ('statime/src/bmc/bmca.rs', 'bmc_bmca.rs'),
     'ptp_instance::verif_inst': ('statime/src/ptp_instance.rs', 'instance.rs'),
@@ -116,6 +118,7 @@ KANI_STUB_TRUST = [
     'Kani stub: WireTimestamp::from(Time) -> arbitrary function of the time - exact contract proved in Verus unit time',
     'Kani stub: Interval::as_core_duration, core::time::Duration::{mul_f64, from_secs_f64} -> arbitrary duration (CBMC powi is inexact; no Kani verdict depends on a timer value)',
     'Kani stub: PortActionIterator::from -> identical construction + recording (textual guard on the original body; c10_action_iterator_yields_list_then_ends proves the iterator yields exactly the list)',
+    'Kani stub (announce-tx unit only): TlvSetBuilder::add -> contract "needs room; used += wire_size" (copying a value of symbolic length is out of reach); the real add is checked against it for lengths <= 8 (c15_tlv_builder_add_matches_contract)',
     'Kani stub: Message::serialize -> returns wire_size and records the message (port units compare emitted frames as messages; the byte encoding is the C04 obligations c04_message_serialize_layout / header / bodies)',
     'test doubles honouring the public trait contracts: RecFilter, RecClock (may fail at any call), AnyRng, AnyAccept, ChkLock, AnyProvider',
 ]
@@ -175,17 +178,20 @@ COMPARE = [
     H(Q, 'c05_state_decision_matches_figure_33', functions=['statime/src/bmc/bmca.rs: Bmca::{calculate_recommended_state, calculate_recommended_state_low_class, calculate_recommended_state_high_class, compare_global_and_port, compare_d0_best}']),
     H(Q, 'c05_find_best_is_a_maximum', tiers=TH, bounded='two candidates (more candidates: paper step from antisymmetry + transitivity)', functions=['statime/src/bmc/bmca.rs: Bmca::find_best_announce_message, BestAnnounceMessage::compare']),
 ]
-_fm_bound = 'foreign-master table generator: <= 2 records of <= 2 messages; payload abstraction (only sender, sequence id, stepsRemoved, age are arbitrary)'
-FOREIGN = [
-    H(F, 'c06_new_list_is_valid_and_empty', functions=['statime/src/bmc/foreign_master.rs: ForeignMasterList::{new, is_announce_message_qualified, register_announce_message, step_age, take_qualified_announce_messages, get_foreign_master, get_foreign_master_mut}, ForeignMaster::{new, register_announce_message, step_age, purge_old_messages}']),
-    H(F, 'c06_qualification_rule', bounded=_fm_bound),
-    H(F, 'c06_register_preserves_valid', bounded=_fm_bound),
-    H(F, 'c06_step_age_ages_and_expires', bounded=_fm_bound),
-    H(F, 'c06_take_qualified_needs_two_messages', bounded=_fm_bound),
-    H(F, 'c06_register_at_capacity', tiers=TH, bounded='all 8 records in use, fixed payload, arbitrary newcomer'),
-    H(Q, 'c06_take_best_keeps_age_and_needs_two', bounded=_fm_bound, functions=['statime/src/bmc/bmca.rs: Bmca::{take_best_port_announce_message, reregister_announce_message}']),
-    H(F, 'c06_finding_duplicate_sequence_id_counts', finding='F-C06-duplicate-sequence-id'),
-]
+_fm_bound = 'foreign-master table of concrete shape (records x messages) in {[], [1], [2], [2,1], [2,2]}; payload abstraction (only sender, sequence id, stepsRemoved, age are arbitrary)'
+_SHAPES = ['empty', 'one_single', 'one_pair', 'pair_and_single', 'two_pairs']
+def _shaped(prefix, name, shapes, quick=('one_pair', 'pair_and_single'), **kw):
+    return [H(prefix, f'{name}__{s}', tiers=QT if s in quick else TH, bounded=_fm_bound, **(kw if i == 0 else {})) for i, s in enumerate(shapes)]
+FOREIGN = (
+    [H(F, 'c06_new_list_is_valid_and_empty', functions=['statime/src/bmc/foreign_master.rs: ForeignMasterList::{new, is_announce_message_qualified, register_announce_message, step_age, take_qualified_announce_messages, get_foreign_master, get_foreign_master_mut}, ForeignMaster::{new, register_announce_message, step_age, purge_old_messages}'])]
+    + _shaped(F, 'c06_qualification_rule', _SHAPES)
+    + _shaped(F, 'c06_register_preserves_valid', _SHAPES)
+    + _shaped(F, 'c06_step_age_ages_and_expires', _SHAPES)
+    + _shaped(F, 'c06_take_qualified_needs_two_messages', _SHAPES)
+    + _shaped(Q, 'c06_take_best_keeps_age_and_needs_two', _SHAPES[1:], functions=['statime/src/bmc/bmca.rs: Bmca::{take_best_port_announce_message, reregister_announce_message}'])
+    + [H(F, 'c06_register_at_capacity', bounded='all 8 records in use (records built directly), arbitrary newcomer'),
+       H(F, 'c06_finding_duplicate_sequence_id_counts', finding='F-C06-duplicate-sequence-id')]
+)
 DISPATCH = [
     H(D, 'c07_foreign_domain_version_or_malformed_is_frame', tiers=TH, functions=['statime/src/port/mod.rs: Port::{parse_and_filter, handle_event_receive, handle_general_receive, handle_general_internal}', 'statime/src/datastructures/messages/mod.rs: is_compatible']),
     H(D, 'c07_event_message_on_general_channel_is_frame', tiers=TH),
@@ -202,6 +208,7 @@ INSTANCE = [
     H(I, 'c19_instance_snapshots_equal_live_state', functions=['statime/src/ptp_instance.rs: PtpInstance::{default_ds, current_ds, parent_ds, time_properties_ds, path_trace_ds}', 'statime/src/observability/{default,parent,current}.rs: From / from_state']),
     H(I, 'c17_instance_setters_single_write', functions=['statime/src/ptp_instance.rs: PtpInstance::{set_clock_quality, set_slave_only}']),
 ]
+SERDE = H('time::duration::verif_bits::serde_contract::', 'c19_duration_serializes_its_full_bit_pattern', functions=['statime/src/time/duration.rs: impl serde::Serialize for Duration', 'statime/src/datastructures/common/time_interval.rs: impl serde::Serialize for TimeInterval'])
 PORT_DS = H(B, 'c19_port_ds_matches_port', functions=['statime/src/port/mod.rs: Port::{port_ds, is_steering, is_master}'])
 MISC_PORT = [
     H(B, 'c03_filter_update_timer', functions=['statime/src/port/mod.rs: Port::handle_filter_update_timer']),
@@ -241,9 +248,9 @@ PROPS = {
             H(S, 'c09_sync_one_step'), H(S, 'c09_delay_resp'), H(S, 'c14_pdelay_timestamp'),
             H(M, 'c10_delay_resp_for_delay_req'), H(M, 'c10_follow_up_for_sync_timestamp'),
             ANNOUNCE_RX_PARENT, ANNOUNCE_RX_ACCEPT, RECEIPT_TIMER, APPLY, ANNOUNCE_TX,
-            H(F, 'c06_register_preserves_valid', bounded=_fm_bound), H(F, 'c06_step_age_ages_and_expires', bounded=_fm_bound),
-        ] + MISC_PORT[:1] + [th(h) for h in (C09_H + C14_H + C10_H + [PATH_TRACE, NOT_SLAVE] + DISPATCH + MISC_PORT[1:] + FOREIGN[:7] + INSTANCE + COMPARE)
-                            if h['name'] not in (S + 'c09_sync_one_step', S + 'c09_delay_resp', S + 'c14_pdelay_timestamp', M + 'c10_delay_resp_for_delay_req', M + 'c10_follow_up_for_sync_timestamp', F + 'c06_register_preserves_valid', F + 'c06_step_age_ages_and_expires')],
+            H(F, 'c06_register_preserves_valid__pair_and_single', bounded=_fm_bound), H(F, 'c06_step_age_ages_and_expires__pair_and_single', bounded=_fm_bound), H(F, 'c06_register_at_capacity', bounded='all 8 records in use'),
+        ] + MISC_PORT[:1] + [th(h) for h in (C09_H + C14_H + C10_H + [PATH_TRACE, NOT_SLAVE] + DISPATCH + MISC_PORT[1:] + FOREIGN[:-1] + INSTANCE + COMPARE)
+                            if h['name'] not in (S + 'c09_sync_one_step', S + 'c09_delay_resp', S + 'c14_pdelay_timestamp', M + 'c10_delay_resp_for_delay_req', M + 'c10_follow_up_for_sync_timestamp', F + 'c06_register_preserves_valid__pair_and_single', F + 'c06_step_age_ages_and_expires__pair_and_single', F + 'c06_register_at_capacity')],
         assumptions=PORT_ASSUME + [
             'C03 is the conjunction of "returns normally and re-establishes the invariant" over every contracted operation: CBMC checks arithmetic overflow (irrespective of build profile), shift overflow, index/slice bounds, unwrap/expect, assert!/debug_assert!/unreachable!, ArrayVec capacity panics, division by zero in every harness; by induction over calls this covers every call order from states satisfying the invariant',
             'timestamps below 2^48 ns combined with large correction fields (Time +- Duration under/overflow on wire-controlled operands) are outside the verified domain: see DESIGN section 7 (not decided, reported as an observation)',
@@ -315,7 +322,7 @@ PROPS = {
     ),
     'C15': dict(
         verus=['tlv'],
-        kani=[ANNOUNCE_TX, PATH_TRACE, ANNOUNCE_RX_ACCEPT, H(MSG, 'c04_enum_tlv_type')],
+        kani=[ANNOUNCE_TX, PATH_TRACE, ANNOUNCE_RX_ACCEPT, H(MSG, 'c04_enum_tlv_type'), H('datastructures::common::tlv::verif_tlv::', 'c15_tlv_builder_add_matches_contract', bounded='TLV value length <= 8 octets', functions=['statime/src/datastructures/common/tlv.rs: TlvSetBuilder::{new, add, build}, Tlv::serialize'])],
         assumptions=PORT_ASSUME[:1] + ['daemon side (statime-linux TlvForwarder over a tokio broadcast channel): assumed contract "next_if_smaller(m) returns a TLV of size <= m, each at most once per receiver"; not verified',
                                        'ForwardTLV actions: the iterator yields the TLVs of the accepted Announce that satisfy announce_propagate (Verus tlv unit: TlvSetIterator::next, TlvType::announce_propagate); with_forward_tlvs is only reached on the accepted path (c06_announce_accepted_effects / c07_announce_unacceptable...)'],
     ),
@@ -347,8 +354,8 @@ PROPS = {
     ),
     'C19': dict(
         verus=['metrics_bool'],
-        kani=INSTANCE[:1] + [PORT_DS],
-        assumptions=['claimed clauses: (a) observation snapshots equal the live data sets and port state, (b) booleans are exported as 1/0. NOT decided: the serde/JSON hop, metric-name <-> value association, Prometheus exposition syntax, HTTP Content-Length (String/fmt/serde reasoning is outside both verifiers)'],
+        kani=INSTANCE[:1] + [PORT_DS, SERDE],
+        assumptions=['claimed clauses: (a) observation snapshots equal the live data sets and port state, (b) booleans are exported as 1/0. (c) the serde representation of the library of Duration/TimeInterval hands the complete bit pattern to the serializer. NOT decided: serde_json itself and the socket hop, metric-name <-> value association, Prometheus exposition syntax, HTTP Content-Length (String/fmt/serde reasoning is outside both verifiers)'],
     ),
 }
 
